@@ -74,6 +74,7 @@ def import_bldfm():
     import bldfm  # noqa
 
     logging.disable(logging.CRITICAL)
+    quiet_worker_exit()  # before any FFT manager exists; inherited by forked children
     got = Path(bldfm.__file__).resolve()
     if SRC not in got.parents:
         raise RuntimeError(f"bldfm imported from {got}, expected under {SRC}")
@@ -104,7 +105,8 @@ def hard_exit(code):
 
 
 def quiet_worker_exit():
-    """Pool workers leave through the normal interpreter shutdown, where the
+    """Processes that leave through the normal interpreter shutdown (pool workers, and the
+    children forked by BLDFM's own process pools) run the
     FFT manager's atexit hook (save wisdom, re-create the pyfftw cache thread)
     fails noisily ("can't create new thread at interpreter shutdown").  In
     worker processes only, make that shutdown hook a no-op; solves are not
